@@ -2,6 +2,7 @@ package main
 
 import (
 	"fmt"
+	"math"
 	"os"
 	"path/filepath"
 	"reflect"
@@ -301,11 +302,15 @@ func generateValidatorChain(rule tagparser.TagRule, fieldType reflect.Type) stri
 		return ""
 	case "min":
 		if len(rule.Params) > 0 {
-			return fmt.Sprintf(".Min(%s)", rule.Params[0])
+			if arg, ok := boundArgument(rule.Name, rule.Params[0], fieldType); ok {
+				return fmt.Sprintf(".Min(%s)", arg)
+			}
 		}
 	case "max":
 		if len(rule.Params) > 0 {
-			return fmt.Sprintf(".Max(%s)", rule.Params[0])
+			if arg, ok := boundArgument(rule.Name, rule.Params[0], fieldType); ok {
+				return fmt.Sprintf(".Max(%s)", arg)
+			}
 		}
 	case "email":
 		return ".Email()"
@@ -320,19 +325,27 @@ func generateValidatorChain(rule tagparser.TagRule, fieldType reflect.Type) stri
 		return ".IPv6()"
 	case "gt":
 		if len(rule.Params) > 0 {
-			return fmt.Sprintf(".Gt(%s)", rule.Params[0])
+			if arg, ok := boundArgument(rule.Name, rule.Params[0], fieldType); ok {
+				return fmt.Sprintf(".Gt(%s)", arg)
+			}
 		}
 	case "gte":
 		if len(rule.Params) > 0 {
-			return fmt.Sprintf(".Gte(%s)", rule.Params[0])
+			if arg, ok := boundArgument(rule.Name, rule.Params[0], fieldType); ok {
+				return fmt.Sprintf(".Gte(%s)", arg)
+			}
 		}
 	case "lt":
 		if len(rule.Params) > 0 {
-			return fmt.Sprintf(".Lt(%s)", rule.Params[0])
+			if arg, ok := boundArgument(rule.Name, rule.Params[0], fieldType); ok {
+				return fmt.Sprintf(".Lt(%s)", arg)
+			}
 		}
 	case "lte":
 		if len(rule.Params) > 0 {
-			return fmt.Sprintf(".Lte(%s)", rule.Params[0])
+			if arg, ok := boundArgument(rule.Name, rule.Params[0], fieldType); ok {
+				return fmt.Sprintf(".Lte(%s)", arg)
+			}
 		}
 	case "enum":
 		// Enum should use the Enum constructor, not a method on String
@@ -410,6 +423,39 @@ func ruleApplies(name string, t reflect.Type) bool {
 		return t.Kind() == reflect.String
 	}
 	return true
+}
+
+// boundArgument formats the parameter of min/max/gt/gte/lt/lte as an argument
+// the method accepts. The bound methods of the float schemas take a float64;
+// those of the string, slice, record and integer schemas take an int or int64,
+// so a fractional bound (gte=2.5) or one beyond int64 written verbatim does
+// not compile. FromStruct reads min/max with strconv.Atoi and ignores the rule
+// when that fails, and truncates the bound of gt/gte/lt/lte to an int64; the
+// generator does the same. ok is false when no call should be written.
+func boundArgument(name, param string, t reflect.Type) (arg string, ok bool) {
+	if t != nil && t.Kind() == reflect.Pointer {
+		t = t.Elem()
+	}
+	if t != nil {
+		switch t.Kind() { //nolint:exhaustive // every other kind takes an integer bound
+		case reflect.Float32, reflect.Float64, reflect.Complex64, reflect.Complex128:
+			if _, err := strconv.ParseFloat(param, 64); err != nil || strings.Trim(param, "0123456789+-.eE") != "" {
+				return "", false
+			}
+			return param, true
+		}
+	}
+	if n, err := strconv.ParseInt(param, 10, 64); err == nil {
+		return strconv.FormatInt(n, 10), true
+	}
+	if name == "min" || name == "max" {
+		return "", false
+	}
+	f, err := strconv.ParseFloat(param, 64)
+	if err != nil || math.IsNaN(f) || f >= 1<<63 || f < -(1<<63) {
+		return "", false
+	}
+	return strconv.FormatInt(int64(f), 10), true
 }
 
 // enumRuleApplies reports whether gozod.Enum(...) has the method written for
